@@ -98,7 +98,7 @@ class Metadata:
         return (
             "cirq_google.study.Metadata("
             f"device_parameters={self.device_parameters!r}, is_const={self.is_const}, "
-            f"label={self.label!r}, unit={self.unit})"
+            f"label={self.label!r}, unit={self.unit!r})"
         )
 
     @classmethod
@@ -114,7 +114,9 @@ class Metadata:
         unit: str | None = None,
         **kwargs,
     ):
-        return Metadata(device_parameters=device_parameters, is_const=is_const, label=label)
+        return Metadata(
+            device_parameters=device_parameters, is_const=is_const, label=label, unit=unit
+        )
 
     def _json_dict_(self) -> dict[str, Any]:
         return cirq.obj_to_dict_helper(self, ["device_parameters", "is_const", "label", "unit"])
